@@ -23,7 +23,7 @@ def main():
     plugin = importlib.import_module("props." + pid.lower())
     rep = vlib.Report(pid, a.tier, seed, level=getattr(plugin, "LEVEL", "proof"))
     try:
-        info = vlib.prepare(getattr(plugin, "HARNESSES", ()))
+        info = vlib.prepare(getattr(plugin, "HARNESSES", ()), getattr(plugin, "MLS", ("wire",)))
     except vlib.BuildBroken as e:
         rep.coverage = {"explanation": "build of /repo or of the framework failed at stage %s" % e.stage,
                         "obligations": 1, "discharged": 0, "checker_cmd": "n/a", "trusted_base": vlib.STANDING_TRUST,
